@@ -357,6 +357,16 @@ func (c *Collector) hang(r Replay) {
 	c.mu.Unlock()
 }
 
+// Abort records a violation after which the process cannot go on (calls that
+// never return hold whatever they hold): the replay is written, the
+// statistics are flushed and the process exits like after a watchdog trip.
+func (c *Collector) Abort(r Replay) {
+	c.hang(r)
+	fmt.Printf("VIOLATION %s/%s: %s\n  calls: %s\n", c.Property, r.Check, r.Message, callsText(r.Calls))
+	FlushAll()
+	os.Exit(3)
+}
+
 // ShardStats is what one shard process writes.
 type ShardStats struct {
 	Property    string           `json:"property"`
